@@ -12,19 +12,58 @@ AllKinds == {"b", "t", "s", "m", "a", "c", "r", "R"}
 
 (* the table: one row per finding *)
 KFTable == {
-    [id |-> "C15-KF0", parsers |-> {}, variants |-> {}, kinds |-> {}, outcome |-> "panic"]
+    [id |-> "C15-KF1", outcome |-> "oom",
+     parsers |-> {"complex.meta.array4", "complex.meta.btreemap", "complex.meta.btreeset", "complex.meta.option", "complex.meta.result", "complex.meta.tuple2", "complex.raw.btreemap", "complex.raw.option", "complex.raw.tuple2", "din.reader.lp_bytes", "din.reader.lp_string", "din.reader.read_vec", "din.slice.lp_bytes", "din.slice.lp_string", "din.slice.read_string", "din.slice.read_vec", "smartptr.box_string", "smartptr.rc_string"},
+     variants |-> {"-", "p31"}, kinds |-> {"a", "b", "c", "m", "r", "s", "t"}],
+    [id |-> "C15-KF1", outcome |-> "panic",
+     parsers |-> {"din.reader.read_vec", "din.slice.read_string", "din.slice.read_vec"},
+     variants |-> {"max"}, kinds |-> {"a", "b", "c", "m", "r", "s", "t"}],
+    [id |-> "C15-KF2", outcome |-> "oom",
+     parsers |-> {"vie.compact.i64seq", "vie.compact.u64seq", "vie.delta.i64seq", "vie.delta.u64seq", "vie.group.i64seq", "vie.group.u64seq", "vie.leb128.i64seq", "vie.leb128.u64seq", "vie.prefixfree.i64seq", "vie.prefixfree.u64seq", "vie.simd.i64seq", "vie.simd.u64seq", "vie.zigzag.i64seq"},
+     variants |-> {"-"}, kinds |-> {"c", "m"}],
+    [id |-> "C15-KF2", outcome |-> "panic",
+     parsers |-> {"vie.compact.i64seq", "vie.delta.i64seq", "vie.group.i64seq", "vie.leb128.i64seq", "vie.prefixfree.i64seq", "vie.simd.i64seq", "vie.zigzag.i64seq"},
+     variants |-> {"-"}, kinds |-> {"m"}],
+    [id |-> "C15-KF3", outcome |-> "oom",
+     parsers |-> {"complex.batch.meta", "complex.batch.raw", "complex.meta.hashmap", "complex.meta.hashset", "complex.raw.hashmap", "complex.raw.hashset", "smartptr.box_vec_string", "smartptr.rc_vec_u32"},
+     variants |-> {"-"}, kinds |-> {"c", "m", "s"}],
+    [id |-> "C15-KF4", outcome |-> "oom",
+     parsers |-> {"huff.ctx.deserialize.o0", "huff.ctx.deserialize.o1", "huff.ctx.deserialize.o2"},
+     variants |-> {"-"}, kinds |-> {"c", "m", "s"}],
+    [id |-> "C15-KF5", outcome |-> "oom",
+     parsers |-> {"comp.huffman.decompress", "huff.ctx.decode.o0", "huff.ctx.decode.o1", "huff.ctx.decode.o2", "huff.ctx.decode_x1", "huff.ctx.decode_x2", "huff.ctx.decode_x4", "huff.ctx.decode_x8", "huff.decode"},
+     variants |-> {"-", "p31"}, kinds |-> {"a", "b", "c", "m", "r", "s", "t"}],
+    [id |-> "C15-KF5", outcome |-> "panic",
+     parsers |-> {"huff.ctx.decode.o0", "huff.ctx.decode.o1", "huff.ctx.decode.o2", "huff.ctx.decode_x1", "huff.ctx.decode_x2", "huff.ctx.decode_x4", "huff.ctx.decode_x8", "huff.decode"},
+     variants |-> {"max"}, kinds |-> {"a", "b", "c", "m", "r", "s", "t"}],
+    [id |-> "C15-KF6", outcome |-> "oom",
+     parsers |-> {"comp.rans.decompress", "rans.decode.x1", "rans.decode.x2", "rans.decode.x4", "rans.decode.x8"},
+     variants |-> {"-", "p31"}, kinds |-> {"a", "b", "c", "m", "s", "t"}],
+    [id |-> "C15-KF6", outcome |-> "panic",
+     parsers |-> {"rans.decode.x1", "rans.decode.x2", "rans.decode.x4", "rans.decode.x8"},
+     variants |-> {"max"}, kinds |-> {"a", "b", "c", "m", "s", "t"}],
+    [id |-> "C15-KF7", outcome |-> "abort",
+     parsers |-> {"zipoffset.load_from_reader"},
+     variants |-> {"-"}, kinds |-> {"m", "s"}],
+    [id |-> "C15-KF8", outcome |-> "oom",
+     parsers |-> {"comp.dictionary.decompress", "dict.decompress", "dict.opt.decompress"},
+     variants |-> {"-"}, kinds |-> {"m", "s"}],
+    [id |-> "C15-KF9", outcome |-> "oom",
+     parsers |-> {"simdlz77.decompress", "simdlz77.global.decompress", "simdlz77.x1.decompress", "simdlz77.x2.decompress", "simdlz77.x4.decompress", "simdlz77.x8.decompress"},
+     variants |-> {"-"}, kinds |-> {"c", "m"}]
 }
 
 KnownIds == {r.id : r \in KFTable}
-Row(id) == CHOOSE r \in KFTable : r.id = id
 
-(* does deviation id cover outcome class o of batch e of subject subj? *)
+(* does deviation id cover outcome class o of batch e of subject subj?  (a finding may   *)
+(* have several rows: one per outcome it shows as)                                      *)
 Covers(id, e, subj, o) ==
-    LET r == Row(id) IN
-    /\ subj.subject \in r.parsers
-    /\ e.variant \in r.variants
-    /\ e.kind \in r.kinds
-    /\ o = r.outcome
+    \E r \in KFTable :
+        /\ r.id = id
+        /\ subj.subject \in r.parsers
+        /\ e.variant \in r.variants
+        /\ e.kind \in r.kinds
+        /\ o = r.outcome
 
 BadClasses(e) == {o \in Outcomes \ Allowed : e.outcomes[o] > 0}
 
@@ -38,7 +77,8 @@ DevApplies(e, subj) ==
     /\ e.op = "parse"
     /\ BadClasses(e) # {}
     /\ \A o \in BadClasses(e) : \E id \in KnownIds : Covers(id, e, subj, o)
-    /\ e.skipped > 0 => e.outcomes.timeout > 0     \* cases are skipped only after repeated timeouts
+    \* cases are skipped only after repeated process-killing outcomes in the same batch
+    /\ e.skipped > 0 => e.outcomes.timeout + e.outcomes.abort + e.outcomes.signal + e.outcomes.oom > 0
 
 (* action KF: replaces ParseBatch for that batch *)
 KnownBatch(e, subj, P) ==
